@@ -50,6 +50,30 @@ func ruleDoc(marker string) map[string]any {
 				"match":   map[string]any{"routes": []any{map[string]any{"path": marker + "-second"}}},
 				"execute": []any{map[string]any{"authenticator": "anon"}, map[string]any{"finalizer": "noop"}},
 			},
+			// every catalogue mechanism with an override that uses all of its rule-level options (the structures decoded by
+			// hand-written hooks: scopes in both forms, expressions, values, endpoint-less overrides)
+			map[string]any{
+				"id":    "mut3:" + marker,
+				"match": map[string]any{"routes": []any{map[string]any{"path": marker + "-third"}}},
+				"execute": []any{
+					map[string]any{"authenticator": "jwt_jwks", "config": map[string]any{
+						"assertions": map[string]any{"issuers": []any{"i1", "i2"}, "audience": []any{"a1"}, "allowed_algorithms": []any{"ES256", "PS256"},
+							"scopes": []any{"s1", "s2"}, "validity_leeway": "5s"},
+						"cache_ttl": "1s", "allow_fallback_on_error": true}},
+					map[string]any{"authenticator": "intro", "config": map[string]any{
+						"assertions": map[string]any{"issuers": []any{"i1"}, "scopes": map[string]any{"matching_strategy": "wildcard", "values": []any{"a.*", "b"}}},
+						"cache_ttl":  "1s", "allow_fallback_on_error": true}},
+					map[string]any{"authenticator": "gen", "config": map[string]any{"cache_ttl": "1s", "allow_fallback_on_error": true}},
+					map[string]any{"authenticator": "anon", "config": map[string]any{"subject": "somebody"}},
+					map[string]any{"authorizer": "rauthz", "config": map[string]any{
+						"payload": "{}", "expressions": []any{map[string]any{"expression": "true", "message": "m"}},
+						"forward_response_headers_to_upstream": []any{"X-A"}, "cache_ttl": "1s", "values": map[string]any{"a": "{{ .Request.Method }}"}}},
+					map[string]any{"contextualizer": "gctx", "config": map[string]any{
+						"payload": "{}", "forward_headers": []any{"X-A"}, "forward_cookies": []any{"c"}, "cache_ttl": "1s",
+						"continue_pipeline_on_error": true, "values": map[string]any{"a": "b"}}},
+					map[string]any{"finalizer": "jwtfin", "config": map[string]any{"ttl": "5m", "claims": "{}"}},
+				},
+			},
 		},
 	}
 }
